@@ -45,7 +45,7 @@ func extractSymbols(journal *ast.Journal, uri protocol.DocumentURI, query string
 	for _, dir := range journal.Directives {
 		switch d := dir.(type) {
 		case ast.AccountDirective:
-			if matchesQuery(d.Account.Name, query) {
+			if d.Account.Name != "" && matchesQuery(d.Account.Name, query) {
 				symbols = append(symbols, protocol.SymbolInformation{
 					Name: d.Account.Name,
 					Kind: protocol.SymbolKindClass,
@@ -56,7 +56,9 @@ func extractSymbols(journal *ast.Journal, uri protocol.DocumentURI, query string
 				})
 			}
 		case ast.CommodityDirective:
-			if matchesQuery(d.Commodity.Symbol, query) {
+			// "commodity 1,000.00" declares a format for amounts without a symbol, and a
+			// directive that is still being typed has none yet: there is nothing to list.
+			if d.Commodity.Symbol != "" && matchesQuery(d.Commodity.Symbol, query) {
 				symbols = append(symbols, protocol.SymbolInformation{
 					Name: d.Commodity.Symbol,
 					Kind: protocol.SymbolKindEnum,
